@@ -504,6 +504,31 @@ def limited(argv, nofile=None, as_nobody=False):
     return argv
 
 
+_LINKS = {"dir": None, "n": 0}
+_LINKS_LOCK = __import__("threading").Lock()
+
+
+def logical_cwd(cwd):
+    """The working directory spelled through a fresh symbolic link that lives in another directory, as after `cd link` in a
+    shell: the kernel's working directory is the same physical one, only $PWD (set by run_cmd) carries the logical spelling.
+    A program that asks the operating system where it is (imdl: env::current_dir) cannot tell the difference; one that trusts
+    $PWD and cleans `..` lexically resolves `../x` against the link's parent (seeded changes C09-10, C19-10). Applied to every
+    run of the real binary that names a working directory, so every relative argument with `..` in any check is such a probe."""
+    try:
+        with _LINKS_LOCK:
+            if _LINKS["dir"] is None:
+                _LINKS["dir"] = tempfile.mkdtemp(prefix="verif-cwd-")
+                os.chmod(_LINKS["dir"], 0o755)
+                import atexit
+                atexit.register(shutil.rmtree, _LINKS["dir"], True)
+            _LINKS["n"] += 1
+            link = os.path.join(_LINKS["dir"], "l%d" % _LINKS["n"])
+        os.symlink(os.path.abspath(os.fsdecode(cwd)), link)
+        return link
+    except OSError:
+        return cwd
+
+
 def can_drop_privileges():
     return os.geteuid() == 0 and shutil.which("setpriv") is not None
 
@@ -516,6 +541,9 @@ def run_cmd(argv, cwd=None, stdin=b"", env=None, timeout=60, nofile=None, as_nob
     if env:
         e.update(env)
     argv = limited(argv, nofile, as_nobody)
+    if cwd is not None and "PWD" not in e:
+        cwd = logical_cwd(cwd)
+        e["PWD"] = os.fsdecode(cwd)
     try:
         p = subprocess.run(argv, cwd=cwd, input=stdin, stdout=subprocess.PIPE, stderr=subprocess.PIPE,
                            env=e, timeout=timeout)
